@@ -17,7 +17,7 @@ def overlay_first(ctx, rule='C07.overlay-first'):
         ol, mv = ctx.need('overlay-lookup', 'map-view')
     except AnchorError as e:
         return [unresolved(rule, str(e))]
-    fn = ol
+    fn = ctx.x(ol)       # with its private helpers folded in (`page_node_for_page(id)` holding the `Page(..)` arm)
     du = ctx.du(fn)
     views = calls_to_fn(ctx.facts, fn, mv)
     f = floor(rule, 'map-view calls in the overlay lookup', len(views), 1)
@@ -70,6 +70,9 @@ def read_via_overlay(ctx, rule='C07.read-via-overlay'):
     if f:
         res.append(f)
     nsites = 0
+    # private helpers that only the overlay lookup calls are part of it (`page_node_for_page`)
+    import c03
+    ol_parts = {g for g in F.reachable_fns([ol]) if g is not ol and g.kind != 'Closure' and not g.eff_pub and c03._only_via(F, g, ol)}
     for r in roots:
         live = {}
         reach_specialised(F, r, live_out=live)
@@ -78,7 +81,7 @@ def read_via_overlay(ctx, rule='C07.read-via-overlay'):
                 if bb not in blocks:
                     continue
                 nsites += 1
-                if g is ol:
+                if g is ol or g in ol_parts:
                     continue
                 res.append(bad(rule, '%s | %s reads a mapped page directly' % (r.qual, g.qual),
                                'read API %s reaches %s, which dereferences a mapped page at %s without going through the overlay lookup (%s): inside a write transaction the read misses the '
@@ -319,6 +322,7 @@ def scan_skips_empty(ctx, rule='C07.scan-skips-empty'):
     for bb, t, c in sites:
         d = t['dest']['l']
         examined = False
+        option_tests = []
         if d != 0 and not t['dest']['pr']:
             for b2 in nxt.reachable_blocks():
                 tt = nxt.term(b2)
@@ -331,6 +335,17 @@ def scan_skips_empty(ctx, rule='C07.scan-skips-empty'):
                         none_arm = tg.get(0, tt['otherwise'])
                         if bb in nxt.reach_from([none_arm]):
                             examined = True
+            # `data.is_none()` / `data.is_some()` is the same examination
+            for b2 in nxt.reachable_blocks():
+                t2 = nxt.term(b2)
+                c2 = callee_of(t2) if t2['k'] == 'call' else None
+                if c2 and last_seg(strip_generics(c2['path'])) in ('is_none', 'is_some') and t2['args'] and d in ctx.du(nxt).slice_operand(t2['args'][0])[0] and t2['target'] is not None:
+                    for b3 in nxt.reach_from([t2['target']]):
+                        t3 = nxt.term(b3)
+                        if t3['k'] == 'switch' and t2['dest']['l'] in ctx.du(nxt).slice_operand(t3['discr'])[0] and any(bb in nxt.reach_from([y]) for y in nxt.succ(b3)) \
+                                and not all(bb in nxt.reach_from([y], avoid={b3}) for y in nxt.succ(b3)):
+                            examined = True
+                            option_tests.append((b3, t2['dest']['l']))
         # ... and whether a None ends the scan or sends it on is decided by the depth of the stack alone (the root may be empty, nothing below it may end the scan): a
         # budget ("step over one empty leaf per call"), a flag or the form of the id lets the scan stop in the middle of a run of emptied leaves
         other = None
